@@ -984,6 +984,36 @@ fn oracle_c02(fields: &[&str]) -> String {
         if !elementary {
             return "oracle pass".to_string();
         }
+        // bare 2D and 3D containers against 4D tuples carrying what `get_coord` presents for the missing
+        // dimensions (height 0, epoch NaN): the stored elements and the count
+        {
+            let at: Vec<Coor4D> = data.iter().map(|c| Coor4D([c[0], c[1], 0.0, f64::NAN])).collect();
+            let mut ref4 = at.clone();
+            let nref = ctx.apply(op, d(&dir), &mut ref4).unwrap_or(usize::MAX);
+            let mut c2: Vec<Coor2D> = data.iter().map(|c| Coor2D([c[0], c[1]])).collect();
+            let n2 = ctx.apply(op, d(&dir), &mut c2).unwrap_or(usize::MAX);
+            if n2 != nref {
+                return format!("oracle FAIL Vec<Coor2D> counts {n2}, the same tuples as 4D {nref} ({def})");
+            }
+            for (a, b) in c2.iter().zip(ref4.iter()) {
+                if !bits_eq(&Coor4D([a[0], a[1], 0.0, 0.0]), b, 2) {
+                    return format!("oracle FAIL Vec<Coor2D> gives {:?} but the 4D tuple gives {} ({def})", a.0, dump_data(&[*b]));
+                }
+            }
+            let at: Vec<Coor4D> = data.iter().map(|c| Coor4D([c[0], c[1], c[2], f64::NAN])).collect();
+            let mut ref4 = at.clone();
+            let nref = ctx.apply(op, d(&dir), &mut ref4).unwrap_or(usize::MAX);
+            let mut c3: Vec<Coor3D> = data.iter().map(|c| Coor3D([c[0], c[1], c[2]])).collect();
+            let n3 = ctx.apply(op, d(&dir), &mut c3).unwrap_or(usize::MAX);
+            if n3 != nref {
+                return format!("oracle FAIL Vec<Coor3D> counts {n3}, the same tuples as 4D {nref} ({def})");
+            }
+            for (a, b) in c3.iter().zip(ref4.iter()) {
+                if !bits_eq(&Coor4D([a[0], a[1], a[2], 0.0]), b, 3) {
+                    return format!("oracle FAIL Vec<Coor3D> gives {:?} but the 4D tuple gives {} ({def})", a.0, dump_data(&[*b]));
+                }
+            }
+        }
         let h0 = 25.0;
         let at: Vec<Coor4D> = data.iter().map(|c| Coor4D([c[0], c[1], h0, t0])).collect();
         let mut ref4 = at.clone();
